@@ -107,6 +107,10 @@ ASSUMPTIONS = [
     "lower_bounds / upper_bounds): the oracle then judges against the documented default; cbar='auto' (default) must "
     "add exactly one colour-bar Axes, cbar=None none; parallel axes: axis i stands at x = i with the label of its "
     "measure (oracle only, not modelled)",
+    "df is passed as the ArchiveDataFrame or (coin) as a plain pandas.DataFrame of it; CVT archives are built from "
+    "custom centroids (no samples: plot_samples=True must raise the documented ValueError) or (coin, <= 8 cells) by "
+    "k-means from a samples array / count, in which case plot_samples=True must draw exactly archive.samples "
+    "(flipped when transposed) and the 1-D cell edges are compared within 2^-30 * scale (non-dyadic centroids)",
     "explicit limits include exactly zero, passed as 0, 0.0, -0.0 or np.float32(0) (falsy but given): the colour "
     "limits must be the explicit ones; frames passed as df also come with an integer / boolean / float32 metric in "
     "the objective column and with integer / float32 measure columns, judged like the float64 frame holding the "
@@ -199,7 +203,7 @@ def archive_sum(a):
     for k in sorted(d):
         arr = np.asarray(d[k])
         parts += [k, str(arr.dtype), arr.shape, arr.tobytes()]
-    for attr in ("boundaries", "centroids", "lower_bounds", "upper_bounds", "dims"):
+    for attr in ("boundaries", "centroids", "samples", "lower_bounds", "upper_bounds", "dims"):
         try:
             v = getattr(a, attr)
         except Exception:  # pylint: disable=broad-except
@@ -211,6 +215,15 @@ def archive_sum(a):
     st = a.stats
     parts += [st.num_elites, repr(st.obj_max), repr(st.qd_score)]
     return sha(*parts)
+
+
+def as_passed(frame, variant):
+    """the frame as the caller passes it: the ArchiveDataFrame, or (coin) a plain pandas.DataFrame of it."""
+    if frame is not None and variant.get("plain_df"):
+        import pandas as pd
+        stat("df passed as a plain pandas.DataFrame")
+        return pd.DataFrame(frame)
+    return frame
 
 
 def frame_sum(df):
@@ -384,7 +397,7 @@ def plots_for(case, view):
 # so the picture is judged against the documented default (transpose off: x axis = measure 0; colour limits = range
 # of the stored objectives; colour bar drawn; no boundary lines; parallel axes in measure order, unsorted; ...).
 DEFAULTS = {"df": None, "transpose_measures": False, "vmin": None, "vmax": None, "cbar": "auto",
-            "boundary_lw": 0, "plot_centroids": False, "clip": False, "sort_archive": False,
+            "boundary_lw": 0, "plot_centroids": False, "plot_samples": False, "clip": False, "sort_archive": False,
             "measure_order": None, "lower_bounds": None, "upper_bounds": None}
 
 
@@ -395,6 +408,8 @@ def gen_variant(rng, sc, **extra):
     v.update(extra)
     v["omit"] = {k: rng.random() < 0.5 for k in sorted(DEFAULTS) + ["ax"]}
     v["zero_kind"] = rng.choice(ZERO_KINDS)
+    # the docstrings allow df to be a plain pandas.DataFrame as well as an ArchiveDataFrame
+    v["plain_df"] = rng.random() < 0.5
     return v
 
 
@@ -444,7 +459,7 @@ def marker_lines(fg, markers, tag):
                                            np.array_equal(g[1], np.asarray(w[1], dtype=float))
                                            for g, w in zip(got, markers)):
         return (f"{tag}: {len(got)} Line2D marker set(s) on the Axes, expected {len(markers)} "
-                f"({'the centroids' if markers else 'none: plot_centroids / plot_samples are off'})")
+                f"({'exactly archive.samples and / or the centroids (flipped when transposed), samples first' if markers else 'none: plot_centroids / plot_samples are off'})")
     return None
 
 
@@ -667,7 +682,7 @@ def call_both(fn, archive, variant, kwargs, read, where, vmin, vmax, frame=None,
     out = []
     for use_df in (False, True):
         tag = f"{where} df={int(use_df)}"
-        df = archive.data(return_type="pandas") if use_df else None
+        df = as_passed(archive.data(return_type="pandas"), variant) if use_df else None
         dsum = frame_sum(df) if use_df else None
         fg = Fig(variant.get("gca", False))
         try:
@@ -707,6 +722,7 @@ def call_frame(fn, archive, variant, kwargs, read, where, vmin, vmax, frame, twi
     stat(f"df-mode:{variant.get('dfmode')}")
     tag = f"{where} df=<{variant.get('dfmode')} frame, row labels {list(frame.index)[:6]}>"
     base_sum = archive_sum(archive)
+    frame = as_passed(frame, variant)
     dsum = frame_sum(frame)
     fg = Fig(variant.get("gca", False))
     try:
@@ -896,6 +912,49 @@ def run_grid(case, view=None):
 # CVT heat-maps
 
 
+def gen_samples(rng, n, lows, widths):
+    """(coin) the archive is built by k-means from an explicit `samples` array / a `samples` count, and so keeps
+    `archive.samples` (plot_samples=True draws them); otherwise custom centroids, no samples."""
+    if n > 8 or rng.random() >= 0.3:
+        return None
+    if rng.random() < 0.5:
+        return {"count": n + rng.randint(2, 24), "seed": rng.randint(0, 999)}
+    pts = set()
+    while len(pts) < n + rng.randint(1, 16):
+        # strictly inside the bounds: a centroid on the bounding box would sit on the edge of its clipped polygon
+        pts.add(tuple(lo + w * rng.randint(2, 62) / 64 for lo, w in zip(lows, widths)))
+    pts = [list(p) for p in sorted(pts)]
+    rng.shuffle(pts)
+    return {"points": pts, "seed": rng.randint(0, 999)}
+
+
+def build_cvt(case, n, ranges, custom):
+    from ribs.archives import CVTArchive
+    smp = case.get("samples")
+    if smp is None:
+        return CVTArchive(solution_dim=1, cells=n, ranges=ranges, custom_centroids=custom, **cma_kwargs(case))
+    stat(f"content:{case['kind']}:archive keeps its samples")
+    return CVTArchive(solution_dim=1, cells=n, ranges=ranges, seed=smp["seed"],
+                      samples=np.asarray(smp["points"], dtype=float) if "points" in smp else smp["count"],
+                      **cma_kwargs(case))
+
+
+def samples_refused(archive, fn, where):
+    """documented: plot_samples=True on an archive without samples raises ValueError."""
+    fg = Fig(False)
+    try:
+        fn(archive, fg.ax, plot_samples=True, vmin=0.0, vmax=1.0, cbar=None)
+    except ValueError:
+        return None
+    except Exception as e:  # pylint: disable=broad-except
+        return Failure("oracle", f"{where}: plot_samples=True on an archive without samples raised "
+                       f"{type(e).__name__} instead of the documented ValueError: {str(e)[:100]}")
+    finally:
+        fg.close()
+    return Failure("oracle", f"{where}: plot_samples=True on an archive without samples was accepted (documented: "
+                   f"ValueError)")
+
+
 def gen_cvt1(rng, pattern=None, scale=None):
     sc = make_scale(rng, scale)
     n = rng.choice([1, 2, 2, 3, 4, 5, 8, 13, 21, 30]) if rng.random() < 0.7 else rng.randint(1, 30)
@@ -913,12 +972,15 @@ def gen_cvt1(rng, pattern=None, scale=None):
     if pattern != "equal":
         zero_obj(rng, sc, ops)
     cma = replaced_history(rng, sc, ops, "c") if pattern == "replaced" else None
-    plots = [gen_variant(rng, sc, tr=False, plot_centroids=rng.random() < 0.2)]
+    samples = gen_samples(rng, n, [lo], [width])
+    plots = [gen_variant(rng, sc, tr=False, plot_centroids=rng.random() < 0.2,
+                         plot_samples=samples is not None and rng.random() < 0.7)]
     if rng.random() < 0.5:
-        plots.append(gen_variant(rng, sc, tr=rng.random() < 0.5))
+        plots.append(gen_variant(rng, sc, tr=rng.random() < 0.5,
+                                 plot_samples=samples is not None and rng.random() < 0.5))
     default_limits_first(pattern, plots)
-    return {"kind": "cvt1", "lo": lo, "width": width, "centroids": cents, "pattern": pattern, "oscale": sc,
-            "cma": cma, "ops": ops, "plots": plots}
+    return {"kind": "cvt1", "lo": lo, "width": width, "centroids": cents, "samples": samples, "pattern": pattern,
+            "oscale": sc, "cma": cma, "ops": ops, "plots": plots}
 
 
 def run_cvt1(case, view=None):
@@ -926,10 +988,15 @@ def run_cvt1(case, view=None):
     from ribs.visualize import cvt_archive_heatmap
     cents = case["centroids"]
     lo, hi = case["lo"], case["lo"] + case["width"]
-    a = CVTArchive(solution_dim=1, cells=len(cents), ranges=[(lo, hi)],
-                   custom_centroids=np.asarray(cents, dtype=float)[:, None], **cma_kwargs(case))
+    a = build_cvt(case, len(cents), [(lo, hi)], np.asarray(cents, dtype=float)[:, None])
     ops = case["ops"]
-    add_ops(a, case, [op["o"] for op in ops], [[cents[op["c"]]] for op in ops])
+    add_ops(a, case, [op["o"] for op in ops], [[float(a.centroids[op["c"], 0])] for op in ops])
+    # k-means centroids are not dyadic: the midpoints (a + b) / 2 round, edges are then compared within 2^-30 * scale
+    loose = case.get("samples") is not None
+    if view is None and a.samples is None:
+        f = samples_refused(a, cvt_archive_heatmap, "cvt1")
+        if f:
+            return f
     data, frame = view_data(a, view)
     objs = [float(o) for o in data["objective"]]
     stored = {int(i): F(o) for i, o in zip(data["index"], data["objective"])}
@@ -940,7 +1007,9 @@ def run_cvt1(case, view=None):
         where += view_tag(view)
         kw = {"transpose_measures": bool(v["tr"])}
         kw["plot_centroids"] = bool(v.get("plot_centroids"))
-        markers = [(a.centroids[:, 0], np.full(len(cs), 0.5))] if kw["plot_centroids"] else []
+        kw["plot_samples"] = bool(v.get("plot_samples")) and a.samples is not None
+        markers = ([(a.samples[:, 0], np.full(len(a.samples), 0.5))] if kw["plot_samples"] else []) + \
+            ([(a.centroids[:, 0], np.full(len(cs), 0.5))] if kw["plot_centroids"] else [])
         obs, fail = call_both(cvt_archive_heatmap, a, v, kw, lambda fg, n: read_quadmesh(fg.ax), where, vmin, vmax,
                               frame=frame, markers=markers)
         if fail:
@@ -958,7 +1027,8 @@ def run_cvt1(case, view=None):
                 if len(inside) != 1:
                     return Failure("oracle", f"{where}: drawn cell {p} [{float(xe[p])},{float(xe[p+1])}] contains "
                                    f"centroids {inside}")
-                if p + 1 < len(cs) and xe[p + 1] != (srt[p] + srt[p + 1]) / 2:
+                mid = (srt[p] + srt[p + 1]) / 2 if p + 1 < len(cs) else None
+                if mid is not None and (not near(xe[p + 1], mid, mid) if loose else xe[p + 1] != mid):
                     return Failure("oracle", f"{where}: edge {p+1} is not the midpoint of neighbouring centroids")
                 if colors[0][p] != stored.get(inside[0]):
                     return Failure("oracle", f"{where}: drawn cell {p} (centroid {inside[0]}) shows "
@@ -976,7 +1046,10 @@ def run_cvt1(case, view=None):
                                         f"vmin={vstr(vmin)} vmax={vstr(vmax)} el={el_str(data)}"))
             if isinstance(m, str):
                 return Failure("corr", f"{where}: model answered {m}")
-            f = cmp_fields(obs, m, ["colors", "xe", "ye"], where)
+            if loose:
+                if len(obs["xe"]) != len(m["xe"]) or not all(near(x, y, y) for x, y in zip(obs["xe"], m["xe"])):
+                    return Failure("corr", f"{where}: xe impl={_short(obs['xe'])} model={_short(m['xe'])}")
+            f = cmp_fields(obs, m, ["colors", "ye"] if loose else ["colors", "xe", "ye"], where)
             if f:
                 return f
             return None
@@ -1006,13 +1079,16 @@ def gen_cvt2(rng, pattern=None, scale=None):
     if pattern != "equal":
         zero_obj(rng, sc, ops)
     cma = replaced_history(rng, sc, ops, "c") if pattern == "replaced" else None
+    samples = gen_samples(rng, n, lows, widths)
     plots = []
     for tr in (False, True):
-        v = gen_variant(rng, sc, tr=tr, clip=rng.random() < 0.25, plot_centroids=rng.random() < 0.2)
+        v = gen_variant(rng, sc, tr=tr, clip=rng.random() < 0.25, plot_centroids=rng.random() < 0.2,
+                        plot_samples=samples is not None and rng.random() < 0.6)
         v["cbar"] = rng.random() < 0.5
         plots.append(v)
     default_limits_first(pattern, plots)
-    return {"kind": "cvt2", "lows": lows, "widths": widths, "centroids": cents, "pattern": pattern, "oscale": sc,
+    return {"kind": "cvt2", "lows": lows, "widths": widths, "centroids": cents, "samples": samples,
+            "pattern": pattern, "oscale": sc,
             "cma": cma, "ops": ops, "plots": plots}
 
 
@@ -1036,9 +1112,13 @@ def run_cvt2(case, view=None):
     cents = np.asarray(case["centroids"], dtype=float)
     n = len(cents)
     ranges = [(lo, lo + w) for lo, w in zip(case["lows"], case["widths"])]
-    a = CVTArchive(solution_dim=1, cells=n, ranges=ranges, custom_centroids=cents, **cma_kwargs(case))
+    a = build_cvt(case, n, ranges, cents)
     ops = case["ops"]
-    add_ops(a, case, [op["o"] for op in ops], [list(cents[op["c"]]) for op in ops])
+    add_ops(a, case, [op["o"] for op in ops], [list(a.centroids[op["c"]]) for op in ops])
+    if view is None and a.samples is None:
+        f = samples_refused(a, cvt_archive_heatmap, "cvt2")
+        if f:
+            return f
     data, frame = view_data(a, view)
     objs = [float(o) for o in data["objective"]]
     stored = {int(i): float(o) for i, o in zip(data["index"], data["objective"])}
@@ -1050,9 +1130,15 @@ def run_cvt2(case, view=None):
         vmin, vmax = effective_limits(v, objs)
         where = f"cvt2 plot#{k} tr={int(tr)} vmin={vmin} vmax={vmax} clip={int(bool(v.get('clip')))}"
         where += view_tag(view)
-        kw = {"transpose_measures": tr, "clip": bool(v.get("clip")), "plot_centroids": bool(v.get("plot_centroids"))}
+        kw = {"transpose_measures": tr, "clip": bool(v.get("clip")), "plot_centroids": bool(v.get("plot_centroids")),
+              "plot_samples": bool(v.get("plot_samples")) and a.samples is not None}
         cpts = a.centroids[:, ::-1] if tr else a.centroids
-        markers = [(cpts[:, 0], cpts[:, 1])] if kw["plot_centroids"] else []
+        markers = []
+        if kw["plot_samples"]:
+            spts = a.samples[:, ::-1] if tr else a.samples
+            markers.append((spts[:, 0], spts[:, 1]))
+        if kw["plot_centroids"]:
+            markers.append((cpts[:, 0], cpts[:, 1]))
         obs, fail = call_both(cvt_archive_heatmap, a, v, kw, read_poly, where, vmin, vmax, frame=frame,
                               markers=markers)
         if fail:
